@@ -4,6 +4,7 @@ import (
 	"bytes"
 	"crypto/x509"
 	"fmt"
+	"math/big"
 	"strings"
 
 	"github.com/wokdav/gopki/generator/cert"
@@ -61,8 +62,16 @@ func c14Enumerate(tier string, yield func(any)) {
 	}
 	var seqs [][]int
 	lists(len(c14Triggers), maxLen, func(l []int) { seqs = append(seqs, append([]int{}, l...)) })
+	// quick: the full trigger-sequence set for representative origins of every kind, sequences of
+	// length <=1 for the rest; thorough: the full set (length <=3) for every origin
+	repr := map[string]bool{"gopki/RSA-1024-0": true, "gopki/RSA-2048-0": true, "gopki/P-256-0": true, "gopki/P-521-0": true, "gopki/brainpoolP256r1-0": true, "gopki/brainpoolP512t1-0": true,
+		"stdlib/RSA-2048-1": true, "stdlib/P-384-1": true, "hand/P-256-1": true, "hand/brainpoolP384r1-1": true,
+		"csr/RSA-2048-0": true, "csr/P-256-0": true, "csr/brainpoolP256r1-0": true, "minimal-scalar/P-256": true, "minimal-scalar/brainpoolP512r1": true}
 	emit := func(c c14Case) {
 		for _, s := range seqs {
+			if tier != "thorough" && len(s) > 1 && !repr[c.Origin+"/"+c.KeyFix] {
+				continue
+			}
 			cc := c
 			cc.Seq = s
 			yield(&cc)
@@ -97,10 +106,26 @@ func c14Enumerate(tier string, yield func(any)) {
 	for _, alg := range []string{"RSA-2048", "P-256", "P-521", "brainpoolP256r1", "brainpoolP512t1", "RSA-1024", "P-224", "brainpoolP384r1"} {
 		emit(c14Case{Origin: "csr", KeyFix: FixtureForAlg(alg, 0), CSR: true})
 	}
+	// keys of tools that write the scalar without its leading zero octets (old OpenSSL)
+	for i := range refx509.Curves {
+		for l := 0; l < 2; l++ {
+			emit(c14Case{Origin: "minimal-scalar", KeyFix: refx509.Curves[i].Name, Layout: l})
+		}
+	}
 }
 
 // c14KeyPEM renders the key block the way the origin would.
 func c14KeyPEM(c *c14Case) ([]byte, *refx509.PrivateKey, error) {
+	if c.Origin == "minimal-scalar" {
+		ci := refx509.CurveByName(c.KeyFix)
+		l := (ci.Curve.Params().N.BitLen() + 7) / 8
+		// a scalar with one (Layout 0) or two (Layout 1) leading zero octets, written without them
+		d := new(big.Int).Sub(new(big.Int).Lsh(big.NewInt(1), uint(8*(l-1-c.Layout))), big.NewInt(0x1234567))
+		der := refx509.BuildECPKCS8(ci, d, refx509.ECEncoding{OuterOID: true, Public: c.Layout == 1, ScalarLen: len(d.Bytes())})
+		full := refx509.BuildECPKCS8(ci, d, refx509.ECEncoding{OuterOID: true})
+		k, err := refx509.ParsePKCS8(full)
+		return refx509.EncodePem("PRIVATE KEY", der), k, err
+	}
 	der := FixtureKeyDER(c.KeyFix)
 	k, err := refx509.ParsePKCS8(der)
 	if err != nil {
@@ -181,7 +206,7 @@ func c14Exec(x *engine.Ctx, cc any) {
 	if c.Deco > 0 {
 		feat += " file=" + c14Decos[c.Deco]
 	}
-	if c.Origin == "hand" {
+	if c.Origin == "hand" && c.Layout < len(c14Layouts) {
 		l := c14Layouts[c.Layout]
 		feat += fmt.Sprintf(" outer-oid=%v inner-oid=%v public=%v", l.OuterOID, l.InnerOID, l.Public)
 	}
@@ -320,7 +345,7 @@ func init() {
 	register(&engine.Check{
 		ID:          "C14",
 		Level:       "model_checking",
-		Rule:        "chain root -> mid -> leaf where mid owns a pre-existing key (so children exist). Key origins: each of the 14 algorithms written by gopki's own PKCS#8 writer, standard-library PKCS#8 for RSA 1024/2048/4096 and the NIST curves, reference-built PKCS#8 for all 10 curves in 5 layouts (curve OID outer only, outer + public key, inner only, inner + public key, both + public key); CSR variant: the leaf holds only a request made from 8 key types. Each origin also with the file decorated the way hand-assembled or exported files are (trailing blank line, trailing remark, leading Bag-Attributes text, CRLF line ends, blank lines around) followed by no trigger, edit-subject or generate-all. From each, every trigger sequence of length <=2 (quick) / <=3 (thorough) over {edit subject, touch + generate-outdated, generate-all, strip certificate block, expire (dates in the past), renew + generate-expired, regenerate issuer, change keyAlgorithm to RSA, to another curve, strip hash line}. After every run: stored key is the same key, certificate SPKI is its public key, mid verifies under root and leaf under mid with byte-equal issuer DN; CSR variant: SPKI bytes = request SPKI, request block byte-identical, no PRIVATE KEY block. states = (origin, trigger prefix), transitions = runs",
+		Rule:        "chain root -> mid -> leaf where mid owns a pre-existing key (so children exist). Key origins: each of the 14 algorithms written by gopki's own PKCS#8 writer, standard-library PKCS#8 for RSA 1024/2048/4096 and the NIST curves, reference-built PKCS#8 for all 10 curves in 5 layouts (curve OID outer only, outer + public key, inner only, inner + public key, both + public key), PKCS#8 for all 10 curves whose scalar is written without its one or two leading zero octets; CSR variant: the leaf holds only a request made from 8 key types. Each origin also with the file decorated the way hand-assembled or exported files are (trailing blank line, trailing remark, leading Bag-Attributes text, CRLF line ends, blank lines around) followed by no trigger, edit-subject or generate-all. From each, every trigger sequence of length <=2 for 15 representative origins and <=1 for the others (quick) / <=3 for every origin (thorough) over {edit subject, touch + generate-outdated, generate-all, strip certificate block, expire (dates in the past), renew + generate-expired, regenerate issuer, change keyAlgorithm to RSA, to another curve, strip hash line}. After every run: stored key is the same key, certificate SPKI is its public key, mid verifies under root and leaf under mid with byte-equal issuer DN; CSR variant: SPKI bytes = request SPKI, request block byte-identical, no PRIVATE KEY block. states = (origin, trigger prefix), transitions = runs",
 		Bound:       map[string]string{"trigger sequence": "quick<=2 thorough<=3"},
 		Assumptions: []string{"key identity is compared on the private scalar / (N, D)"},
 		Budget:      budgets(quickBudget, thoroughBudget),
